@@ -46,6 +46,7 @@ DOC_NOT = ["documents outside the template menu or longer than K lines", "schema
 
 STRUCT = doc("VerifH_CatalogStructure", {"K": 3, "MENU": 0}, {"K": 4, "MENU": 0})
 STRUCT_TAGS = doc("VerifH_CatalogStructure", {"K": 4, "MENU": 1}, {"K": 5, "MENU": 1})
+STRUCT_PARENS = doc("VerifH_CatalogStructure", {"K": 5, "MENU": 2}, {"K": 6, "MENU": 2})
 PGRAPH = doc("VerifH_PasteGraph", {"M": 3}, {"M": 4}, budget_violation=True, depth_budget=300)
 
 CHECKS = {
@@ -78,7 +79,7 @@ CHECKS = {
  },
  "C02": {
   "title": "Diagnostics are well located",
-  "harnesses": [LOC, LOC_LONG, TRACE1, TRACE2,
+  "harnesses": [LOC, LOC_LONG, TRACE1, TRACE2, {"pkg": "jerr", "fn": "VerifH_LocationIndependent", "quick": {"N": 2}, "thorough": {"N": 3}},
    next_total(3, 5, [0, 1, 5, 9, 12, 15]),
    scan_project({"N": 2, "M": 1}, {"N": 3, "M": 2}, [0, 1, 2, 7, 14, 16]),
   ],
@@ -100,7 +101,7 @@ CHECKS = {
  },
  "C04": {
   "title": "Catalog faithfulness",
-  "harnesses": [STRUCT, STRUCT_TAGS],
+  "harnesses": [STRUCT, STRUCT_TAGS, STRUCT_PARENS],
   "assumptions": DOC_ASSUME + ["reference model (refCatalogSig): reads info, servers, types, tags (declared first, then automatic per first path segment), and interactions with id / method / path / annotation / description / tags / request / responses off the template sequence using the C06 reference resolver for nesting"],
   "not_decided": DOC_NOT + ["documents with MACRO / PASTE (compared relationally by C07)"],
  },
@@ -144,17 +145,18 @@ CHECKS = {
    {"pkg": "core", "fn": "VerifH_IncludePath", "quick": {"N": 4}, "thorough": {"N": 6}, "stubsets": ["vfs", "location"]},
    {"pkg": "core", "fn": "VerifH_IncludeTargetKinds", "quick": {"N": 3}, "thorough": {"N": 5}, "stubsets": ["vfs", "location"]},
    STACKINV,
+   {"pkg": "core", "fn": "VerifH_IncludeEquivalence", "quick": {"KR": 3}, "thorough": {"KR": 4}, "stubsets": ["location", "vfs-files"], "full_schema_lib": True},
   ],
   "assumptions": [
    "os.Stat contract: the directory of the including file and its ancestors exist and are directories; any other path is absent, a directory, a regular file or fails otherwise",
    "names are bare parameters: bytes that terminate or quote a parameter (blank, line end, '#', '\"', NUL) are excluded",
   ],
-  "not_decided": ["textual-inclusion equivalence (moving directives into an included file leaves verdict and catalog unchanged)", "symbolic links / OS path semantics", "names longer than N bytes"],
+  "not_decided": ["textual-inclusion equivalence beyond the shape of VerifH_IncludeEquivalence (one run of 1..KR lines under a URL / method, included from two places of one file; no nested includes)", "symbolic links / OS path semantics", "names longer than N bytes"],
  },
  "C09": {
   "title": "Accepted means serialisable",
   "harnesses": [
-   {"pkg": "catalog", "fn": "VerifH_OrderedMaps", "quick": {}, "thorough": {}, "instances": [{"T": t} for t in range(5)], "lock_monitor": True, "no_replay_kinds": ["lock"]},
+   {"pkg": "catalog", "fn": "VerifH_OrderedMaps", "quick": {}, "thorough": {}, "instances": [{"T": t} for t in range(5)], "lock_monitor": True, "no_replay_kinds": ["lock"], "no_replay_asserts": ["C16.ordmap.update-callback-under-write-lock"]},
    {"pkg": "catalog", "fn": "VerifH_IdInjective", "quick": {"N": 3}, "thorough": {"N": 4}},
    STRUCT, STRUCT_TAGS,
   ],
@@ -166,7 +168,7 @@ CHECKS = {
  "C16": {
   "title": "Concurrency (reduced to lock discipline)",
   "harnesses": [
-   {"pkg": "catalog", "fn": "VerifH_OrderedMaps", "quick": {}, "thorough": {}, "instances": [{"T": t} for t in range(5)], "lock_monitor": True, "no_replay_kinds": ["lock"]},
+   {"pkg": "catalog", "fn": "VerifH_OrderedMaps", "quick": {}, "thorough": {}, "instances": [{"T": t} for t in range(5)], "lock_monitor": True, "no_replay_kinds": ["lock"], "no_replay_asserts": ["C16.ordmap.update-callback-under-write-lock"]},
   ],
   "assumptions": ["lockset monitor: every load/store of the collection's data/order fields, of the map object and of the order slice's elements must happen with the collection's mutex held (write-held for writes); Lock on a held mutex = self-deadlock; no lock may remain held after the operation",
                   "violations of kind 'lock' are not replayed natively (a single-threaded run cannot exhibit them)"],
@@ -215,7 +217,8 @@ CHECKS = {
   "title": "Descriptions and annotations",
   "harnesses": [
    {"pkg": "catalog", "fn": "VerifH_Annotation", "quick": {"N": 5}, "thorough": {"N": 7}},
-   {"pkg": "core", "fn": "VerifH_DescriptionNormal", "quick": {"N": 4}, "thorough": {"N": 5}},
+   {"pkg": "core", "fn": "VerifH_DescriptionNormal", "quick": {"N": 4, "ALPHA": 0}, "thorough": {"N": 5, "ALPHA": 0}},
+   {"pkg": "core", "fn": "VerifH_DescriptionNormal", "quick": {"N": 5, "ALPHA": 1}, "thorough": {"N": 6, "ALPHA": 1}},
    {"pkg": "core", "fn": "VerifH_DescriptionParens", "quick": {"N": 6}, "thorough": {"N": 8}},
   ],
   "assumptions": ["description texts: ASCII without NUL, VT, FF", "regexp engine not encoded: (*Regexp).ReplaceAllString is an engine intrinsic for the single pattern \\s+ (Perl class [\\t\\n\\f\\r ])", "ASCII texts"],
@@ -232,7 +235,7 @@ CHECKS = {
  },
  "C18": {
   "title": "Banned directives",
-  "harnesses": [doc("VerifH_Banned", {"K": 2}, {"K": 3})],
+  "harnesses": [doc("VerifH_Banned", {"K": 2}, {"K": 3}, stubsets=["location", "vfs-files"])],
   "assumptions": DOC_ASSUME + ["banned sets are singletons over the kinds of the menu (INFO, Title, SERVER, URL, GET, POST, 200, TYPE, TAG, MACRO, PASTE)", "the run with the option is compared with the run without it on the same symbolic document"],
   "not_decided": DOC_NOT + ["banned INCLUDE with the virtual file system (the scan-time check is shared with all other kinds)", "larger banned sets"],
  },
@@ -241,7 +244,7 @@ CHECKS = {
   "harnesses": [
    {"pkg": "catalog", "fn": "VerifH_TagNameInverse", "quick": {"N": 4}, "thorough": {"N": 6}, "tabsets": ["urlescape"]},
    {"pkg": "catalog", "fn": "VerifH_PathTagTitle", "quick": {"N": 5}, "thorough": {"N": 8}},
-   STRUCT, STRUCT_TAGS,
+   STRUCT, STRUCT_TAGS, STRUCT_PARENS,
   ],
   "assumptions": ["net/url.shouldEscape tabulated from the real standard-library code (256 x 8 concrete executions) and used as an exact summary"],
   "not_decided": ["segments longer than N bytes", "documents outside the template menu of the structure harness"],
